@@ -26,8 +26,10 @@ try:
     for f in os.listdir(src):
         if f.endswith("_test.go") or (f.endswith(".go") and f != "patch.diff"):
             demo_src = os.path.join(src, f)
-    dest = demo.get("path_in_tree")
+    dest = (demo.get("path_in_tree") or "").split(" ")[0] or None
     cmd = demo.get("command")
+    if dest and dest.endswith("/") and demo_src:
+        dest = dest + os.path.basename(demo_src)
     if not nodemo and demo_src and dest and cmd:
         os.makedirs(os.path.dirname(os.path.join(wt, dest)), exist_ok=True)
         shutil.copy(demo_src, os.path.join(wt, dest))
@@ -58,7 +60,7 @@ finally:
 dst = os.path.join(V, "seeded", sid)
 os.makedirs(dst, exist_ok=True)
 for f in os.listdir(src):
-    if f == "meta.json" or f.endswith(".log"):
+    if f == "meta.json" or f.endswith(".log") or os.path.abspath(src) == os.path.abspath(dst):
         continue
     shutil.copy(os.path.join(src, f), os.path.join(dst, f))
 meta["verification"] = res
